@@ -196,6 +196,8 @@ def run_check(pid, tier, harnesses, level="model_checking", assumptions=(), expl
         cov["discharged_by_evaluation_on_path"] = cov.get("discharged_by_evaluation_on_path", 0) + \
             sum(v[2] for v in res.obl.values())
         cov["inconclusive"] += len(res.inconclusive)
+        cov["solver_timeouts"] = cov.get("solver_timeouts", 0) + sum(
+            1 for i in res.inconclusive if any(k in str(i.get("why", "")) for k in ("canceled", "timeout", "time limit")))
         if not res.exhaustive:
             cov["exhaustive"] = False
             cov["pending_prefixes"] += res.pending
@@ -331,7 +333,17 @@ def run_check(pid, tier, harnesses, level="model_checking", assumptions=(), expl
             print("  harness=%s obligation=%s detail=%s inputs=%s" % (
                 v["harness"], v["label"], json.dumps(v["detail"], default=str)[:400],
                 json.dumps(v["inputs"], default=str)[:400]))
-    if code == 0 and (unconfirmed or mismatches or errors or cov["inconclusive"]):
+    # a path on which the solver hit its time limit is not explored: it is counted (evidence: inconclusive, solver_timeouts,
+    # exhaustive=false) and, like any path the budget did not reach, is outside what this run claims.  Only when such paths are
+    # more than a handful (machine overloaded, or an encoding gone wrong) is the whole run inconclusive.  Any other `unknown`
+    # (no time limit involved) always is.
+    timeouts = cov.get("solver_timeouts", 0)
+    hard_inconclusive = cov["inconclusive"] - timeouts
+    tolerated = max(3, cov["states"] // 500)
+    if timeouts:
+        cov["exhaustive"] = False
+        cov["pending_prefixes"] = cov.get("pending_prefixes", 0) + timeouts
+    if code == 0 and (unconfirmed or mismatches or errors or hard_inconclusive or timeouts > tolerated):
         code = 2
     for u in unconfirmed[:4]:
         print("UNCONFIRMED (exit 2) %s/%s: %s inputs=%s concrete=%s" % (
@@ -344,7 +356,10 @@ def run_check(pid, tier, harnesses, level="model_checking", assumptions=(), expl
     if len(errors) > 3:
         print("... %d more harness errors (see evidence)" % (len(errors) - 3))
     if cov["inconclusive"]:
-        print("INCONCLUSIVE: %d solver-unknown paths" % cov["inconclusive"])
+        if hard_inconclusive or timeouts > tolerated:
+            print("INCONCLUSIVE: %d solver-unknown paths (%d of them time limits)" % (cov["inconclusive"], timeouts))
+        else:
+            print("UNDECIDED-PATHS: %d path(s) hit the solver's time limit and are not counted as explored (exhaustive=false)" % timeouts)
     ev["violations"] = len(violations)
     cov["unconfirmed"] = len(unconfirmed)
     cov["witness_mismatches"] = len(mismatches)
